@@ -130,6 +130,14 @@ func driveLsp(c *Ctx) error {
 		for k := 0; k < 10 && len(text) > 0; k++ {
 			offs = append(offs, r.Intn(len(text)))
 		}
+		// around every brace of a board block
+		for _, b := range blocks {
+			for _, o := range []int{b.Open, b.Open + 1, b.Close, b.Close + 1} {
+				if o >= 0 && o < len(text) {
+					offs = append(offs, o)
+				}
+			}
+		}
 		lineCol := func(off int) (int, int) {
 			ln := 0
 			for i, ls := range lineStart {
